@@ -41,7 +41,7 @@ for p in props:
                 "make a rule stricter. The behavioural remainder of the property (runtime schedules/interleavings) is NOT decided.",
             ),
             "technique": getattr(
-                mod, "TECHNIQUE", "static analysis: custom MIR dataflow/dominance/guard rules over rustc's type-checked program"
+                mod, "TECHNIQUE", "static analysis: custom MIR dataflow / dominance / post-dominance (must-pass-through) / guard-implication / lock-held / ordering-floor rules, who-may-call and state-mutation inventories, branch-commit and decision-input census over rustc's type-checked program (rustc_private driver); compile_fail witnesses with compiling twins in the thorough tier"
             ),
         }
     )
@@ -66,12 +66,12 @@ man = {
             "name": "nxrules",
             "path": "/verif/nx",
             "serves_properties": served,
-            "kind_free_text": "Python rule engine: CFG, dominators/post-dominators, reaching definitions, value origins, guard conditions, lock-held dataflow, call graph; per-property rule modules in nx/rules",
+            "kind_free_text": "Python rule engine: CFG, dominators/post-dominators, natural loops, reaching definitions, value origins, guard conditions, lock-held dataflow, call graph, fact-level inlining of unknown helpers; per-property rule modules in nx/rules plus shared tables (ordering floors, inventories, must-pass entries, decision inputs)",
         },
     ],
     "checks": checks,
     "not_applicable": na,
-    "notes": "All checks are static: nothing of /repo is executed. Four genuine defects were found and repaired in /repo ('fix:' commits 13746ce, a89a5c3, ef69618, 6d8549d), see known_findings.json and DESIGN.md section 4.",
+    "notes": "All checks are static: nothing of /repo is executed. Five genuine defects were found and repaired in /repo ('fix:' commits 13746ce, a89a5c3, ef69618, 6d8549d, 6b8fb82), see known_findings.json and DESIGN.md section 4. Every property is claimed for the structural clauses listed in DESIGN.md section 5 only; the behavioural remainder of each property is listed as not decided in DESIGN.md section 7 and in each check's level text.",
 }
 with open(os.path.join(HERE, "MANIFEST.json"), "w") as f:
     json.dump(man, f, indent=1)
